@@ -62,7 +62,14 @@ def contracts():
                'len(calls) == 1 and calls[0][0] == "m.register_function" '
                'and calls[0][1][0] == context',
                # what is registered is the wrapper closed over THIS body
-               'calls[0][1][1].closure_vars["func"] is func'])
+               'calls[0][1][1].closure_vars["func"] is func',
+               # ... declared as a plain FUNCTION of that name and nothing
+               # else: no method / extension-method marking (it would take
+               # over every method call of the name inside the scope), no
+               # parameter declarations
+               'len(calls[0][1][1].decos) == 1 and '
+               'calls[0][1][1].decos[0][0] == "name" and '
+               'calls[0][1][1].decos[0][1][0] == name'])
     c('send_context', params=dict(left=TVal, right=TFunc(1)),
       ensures=['len(calls) == 1 and calls[0][1][0] == left',
                'result == calls[0][2]'])
